@@ -87,18 +87,21 @@ impl<'a, P> State<'a, P> {
     where
         T: CustomState<'a> + TidAble<'a>,
     {
-        #[derive(better_any::Tid)]
-        struct Marker<T>(PhantomData<fn() -> T>);
-        impl<'a, T: TidAble<'a>> CustomState<'a> for Marker<T> {}
-
+        // Remember the scope `T` lives in by its distance from the current (innermost) scope,
+        // which stays valid however `f` uses the state, including nested calls for the same `T`.
+        let depth = self.depth();
         let registry_with_t = self.find_mut::<T>()?;
-        registry_with_t.insert(Marker::<T>(PhantomData));
+        let levels_up = depth - registry_with_t.depth();
         let mut t = registry_with_t.remove::<T>()?;
         let result = f(&mut t, self);
 
-        let state_with_t = self.find_mut::<Marker<T>>()?;
-        state_with_t.insert(t);
-        state_with_t.remove::<Marker<T>>()?;
+        let mut registry_with_t: &mut StateRegistry<'a> = &mut self.registry;
+        for _ in 0..levels_up {
+            registry_with_t = registry_with_t
+                .parent_mut()
+                .ok_or_else(StateError::not_found::<T>)?;
+        }
+        registry_with_t.insert(t);
 
         result
     }
